@@ -80,6 +80,8 @@ def _scenario(name, ops, tier, allow=1):
         for ti, kind, r, ok in res:
             if kind == "read":
                 alts.append(z3.And(done, ok, r.bl == 0, z3.Not(s[("fld", "bp", "_closed")])))
+        # (4) no lost wake-up: nobody can move any more, a reader is still asleep, yet data is buffered or the pipe is closed
+        alts.append(z3.And(m.stuck(s, t), z3.Or(buflen > 0, s[("fld", "bp", "_closed")])))
         return z3.Or(*alts)
 
     def make_real(params, init_, clock):
@@ -146,7 +148,7 @@ def scenarios(tier):
            _scenario("read||empty", [("T1", "read"), ("T2", "empty")], tier),
            _scenario("feed||read||empty", [("T1", "feed"), ("T2", "read"), ("T3", "empty")], tier)]
     if tier == "thorough":
-        out += [_scenario("feed||read||read", [("T1", "feed"), ("T2", "read"), ("T3", "read")], tier, 2),
+        out += [_scenario("feed||read||read", [("T1", "feed"), ("T2", "read"), ("T3", "read")], tier),
                 _scenario("feed||close||read", [("T1", "feed"), ("T2", "close"), ("T3", "read")], tier)]
     return out
 
